@@ -386,12 +386,3 @@ Proof.
   rewrite Nat.eqb_refl. rewrite (upd_same o) by (destruct ob; exact Ho). reflexivity.
 Qed.
 
-(* ------------------------------------------------------------------ *)
-(* Experiments                                                          *)
-(* ------------------------------------------------------------------ *)
-Lemma step_chans_test c t ch c' : step c t ch = Some c' -> length (c_chans c) <= length (c_chans c').
-Proof.
-  intro H. unfold step in H. step_inv H.
-  all: try (unfold step_call, step_pub_start, step_sub_start, announce, step_recv, close_chan in *).
-  all: step_inv H.
-  Show.
